@@ -103,6 +103,32 @@ def comparator_language(ctx, rep, prog, g):
                          name, L.word_str(w, reps)), example=L.word_str(w, reps))
         else:
             rep.ok(rule)
+    # (c) conversely, whatever the real alternatives consume is a comparator of one of the five families
+    try:
+        U = L.consumed_prefixes(M5)
+        # node-semver's own comparator syntax is wider than the five families above in one respect: XRANGEPLAIN starts
+        # with `[v=\s]*`, so any run of `v`, `=` and blanks may precede the numbers
+        lead = L.star(union(union(lit("v"), lit("=")), sp))
+        # loose prerelease (PRERELEASELOOSE): the hyphen is optional, whatever the first character of the tag
+        wide_q = L.concat(L.opt(L.concat(L.opt(dash), ids)), L.opt(L.concat(plus_, ids)))
+        wide_partial = L.concat(xr, L.opt(L.concat(L.concat(dot, xr), L.opt(L.seq(dot, xr, wide_q)))))
+        np = L.concat(lead, wide_partial)
+        # `~ >1.2`: node-semver's tilde trim joins `~` with what follows the blanks, giving `~>1.2`
+        ref = union(union(L.seq(L.opt(op), np), L.seq(lit("~"), ws, L.opt(lit(">")), np)),
+                    union(L.seq(lit("^"), np), L.seq(np, L.plus(sp), dash, L.plus(sp), np)))
+        # a dash standing alone before a partial: the crate reads ` - 1.2.3` as the dropped token `-` followed by `1.2.3`
+        # (the T-DESUGAR-HYPHEN cells with an absent lower side require exactly that reading)
+        ref = union(ref, L.seq(dash, L.plus(sp), np))
+        ref = L.concat(ws, ref)          # blanks in front of a comparator belong to the separator
+        w = diff(U, ref).witness()
+        if w is not None:
+            rep.fail(rule, "range::simple|%s|consumes a non-comparator" % rule,
+                     "a real alternative of simple() consumes text that is not a comparator of the npm grammar (with the loose "
+                     "spellings); shortest: %r" % L.word_str(w, reps), example=L.word_str(w, reps))
+        else:
+            rep.ok(rule)
+    except Inconclusive as e:
+        rep.inconc("%s: %s" % (rule, e.reason), e.where)
     # consistency of the automaton constructions on this grammar: the marked automaton of simple() against a direct
     # evaluation of the extracted tree on enumerated words
     import itertools
